@@ -75,7 +75,7 @@ def items(tier):
     kmax = 3 if quick else 4
     for k in range(1, kmax + 1):
         for shapes in itertools.combinations_with_replacement(range(len(SHAPES)), k):
-            if k >= 3 and quick and sum(len(SHAPES[s]) for s in shapes) > 10:
+            if k >= 3 and quick and sum(len(SHAPES[s]) for s in shapes) > 7:
                 continue
             if k == 4 and sum(len(SHAPES[s]) for s in shapes) > 14:
                 continue
